@@ -44,14 +44,18 @@ def repo_hash():
                 h.update(p.encode())
                 with open(p, "rb") as fh:
                     h.update(fh.read())
-    for root, dirs, files in os.walk(os.path.join(VERIF, "harness")):
-        dirs.sort()
-        for f in sorted(files):
-            p = os.path.join(root, f)
-            h.update(p.encode())
-            with open(p, "rb") as fh:
-                h.update(fh.read())
     return h.hexdigest()[:16]
+
+
+def _files_hash(paths, extra=()):
+    h = hashlib.sha256()
+    for p in paths:
+        h.update(p.encode())
+        with open(p, "rb") as fh:
+            h.update(fh.read())
+    for e in extra:
+        h.update(str(e).encode())
+    return h.hexdigest()[:10]
 
 
 _RH = None
@@ -81,7 +85,9 @@ class BuildError(Exception):
 def build_cpp(name, sources, extra=(), libs=(), sanitize=True):
     """compile harness/<sources> (+ listed /repo sources) into build/impl-<hash>/<name>"""
     d = build_dir()
-    out = os.path.join(d, name)
+    hs = [x if os.path.isabs(x) else os.path.join(VERIF, "harness", x) for x in sources]
+    hs = [x for x in hs if x.startswith(os.path.join(VERIF, "harness"))] + [os.path.join(VERIF, "harness", "common.h")]
+    out = os.path.join(d, "%s-%s" % (name, _files_hash(hs, list(extra) + list(libs) + [sanitize])))
     if os.path.exists(out):
         return out
     lock = out + ".lock"
@@ -276,7 +282,11 @@ def _run_chunk(binary, lines, timeout, env):
             outs.append("HANG")
         else:
             kind = "CRASH(rc=%s)" % rc
-            if "AddressSanitizer" in err:
+            if rc == 3 and "TERMINATE" in err:
+                kind = "TERMINATE"
+            elif rc == 4 and "HANG" in err:
+                kind = "HANG"
+            elif "AddressSanitizer" in err:
                 m = re.search(r"AddressSanitizer: ([a-zA-Z-]+)", err)
                 kind = "SANITIZER(asan:%s)" % (m.group(1) if m else "?")
             elif "runtime error:" in err:
@@ -284,16 +294,18 @@ def _run_chunk(binary, lines, timeout, env):
                 kind = "SANITIZER(ubsan:%s)" % (m.group(1) if m else "?")
             elif "terminate called" in err or "TERMINATE" in err:
                 kind = "TERMINATE"
+            elif "HANG" in err and rc == 4:
+                kind = "HANG"
             outs.append(kind)
         i += 1
     return outs
 
 
-def run_driver(binary, lines, timeout=600, jobs=None, chunk=None):
+def run_driver(binary, lines, timeout=600, jobs=None, chunk=None, asan_options=None):
     if not lines:
         return []
     env = dict(os.environ)
-    env["ASAN_OPTIONS"] = "detect_leaks=1:abort_on_error=0:allocator_may_return_null=1:malloc_context_size=5"
+    env["ASAN_OPTIONS"] = asan_options or "detect_leaks=1:abort_on_error=0:allocator_may_return_null=1:malloc_context_size=5"
     env["UBSAN_OPTIONS"] = "print_stacktrace=0"
     jobs = jobs or NCPU
     if chunk is None:
